@@ -4,7 +4,7 @@ From Verif Require Import Sx Str Tok.
 From Verif.Gen Require Import Consts Sanitizer Serializer.
 From Verif.Model Require Import CharRef TokBase Ser C09 C10.
 From Verif.Spec Require Import TokSpec.
-From Verif.Proofs Require Import C09 C10 C08.
+From Verif.Proofs Require Import C09 C10 C08 SpecTac C08tag C10lex.
 Import ListNotations.
 Local Open Scope N_scope.
 
@@ -33,6 +33,23 @@ Theorem c10_escaped_text_stays_text : forall t rest c tm o cd b,
             = Some (mk_tk dataState rest c tm (rev (singles t) ++ o) cd b).
 Proof. exact text_roundtrip. Qed.
 
+(* THE LEXICAL HALF AS ONE THEOREM.  For EVERY stream a tree walker can produce (any element and attribute
+   names, any attribute values, any text, comments), every option set whose quote character is U+0022 or U+0027:
+   whatever HTMLSerializer(sanitize=True) writes (model san_ser = Ser after San with the default lists) is read
+   back by the WHATWG tokenizer S_tok, from the data state, as exactly the sanitized stream -- nothing is
+   re-interpreted: no character of any text or attribute value opens or closes a tag ... *)
+Theorem c10_sanitized_output_reads_back : forall o, qc_ok o -> forall ts txt errs rest cu tm out cd,
+  Forall walker_tok ts -> san_ser o ts = Some (txt, errs) ->
+  exists j cu', sp_iter j (mk_tk dataState (txt ++ rest) cu tm out cd false)
+                = Some (mk_tk dataState rest cu' tm (rev (flat_map (rd_tok o) (san_default ts)) ++ out) cd false).
+Proof. exact sanitized_output_reads_back. Qed.
+
+(* ... and every token read back is a character, or a tag whose name is on the element allow-list with
+   attributes whose names are on the attribute allow-list (ASCII-lower-cased, as the tokenizer does) *)
+Theorem c10_read_back_tokens_are_allowed : forall o css ts, Forall walker_tok ts ->
+  Forall from_lists (flat_map (rd_tok o) (San default_lists css ts)).
+Proof. exact read_back_tokens_are_allowed. Qed.
+
 (* comments never reach the serializer *)
 Theorem c10_no_comment_reaches_the_serializer : forall css s, sanitize default_lists css (TComment s) = None.
 Proof. exact (sanitize_comment_dropped default_lists). Qed.
@@ -47,8 +64,8 @@ Theorem c10_sanitizer_position :
    [111;112;116;105;111;110;97;108;116;97;103;115]].
 Proof. exact sanitizer_position. Qed.
 
-(* PARTIAL.  What is proved is lexical: nothing the sanitizer removed can come back as a tag, and text stays
-   text.  That re-parsing cannot move an ALLOWED tag into a context where it means something else (namespace
+(* PARTIAL.  What is proved is lexical (token level): the sanitized output is re-tokenized into exactly the
+   sanitized stream, so nothing the sanitizer removed can come back as a tag or attribute, and text stays text.  That re-parsing cannot move an ALLOWED tag into a context where it means something else (namespace
    changes through integration points -- the mutation-XSS mechanism) is not provable without a model of tree
    construction; it is decided by the re-parse run (document + 11 fragment contexts, scripting on/off) with one
    listed finding of exactly that kind. *)
